@@ -96,6 +96,42 @@ class SR:
         return {"real": "real", "log": "real", "viterbi": "trop", "bool": "bool"}[self.name]
     def __repr__(self): return "%s/%s" % (self.name, self.dtype)
 
+class MagSR(SR):
+    """Reading of the specs of gen.magnitude_spec.  Moderate values, 0 and 'inf' are read as by SR.  An EXTREME
+    weight 2^e (|e| in gen.MAG_EXPS = 100/110/120, always finite) is read per configuration so that ONE such
+    weight is representable and the product of TWO leaves the dtype's range:
+      Real float32   2^e             Real float64   2^(8e)                       (model: the same rational)
+      Viterbi        log-weight  sign(e) * 2^1023 * (1 + (|e|-100)/40)           (model: the same rational, trop)
+      Log            the same log-weight L as Viterbi; the weight it denotes, exp(L), is a positive finite real
+                     that is not a usable rational: the model is given 2^(8e) in its place.  Extreme weights only
+                     occur in terms that contain a zero factor (gen.magnitude_killed, asserted per case), whose
+                     value does not depend on the other factors (theorem C01_rule_val_annihilated_terms)
+      Bool           True"""
+    def __init__(self, base):
+        SR.__init__(self, base.name, base.dtype, base.scale)
+    def logw(self, e):
+        return (1 if e > 0 else -1) * Fraction(2) ** 1023 * (1 + Fraction(abs(e) - gen.MAG_E, 40))
+    def wconv(self, v):
+        e = gen.mag_exponent(v)
+        if e is None: return SR.wconv(self, v)
+        if self.name == "real": return math.ldexp(1.0, e if self.dtype == "float32" else 8 * e)
+        if self.name in ("log", "viterbi"): return float(self.logw(e))
+        return True
+    def wwire(self, v):
+        e = gen.mag_exponent(v)
+        if e is None: return SR.wwire(self, v)
+        if self.name == "real": return Fraction(2) ** (e if self.dtype == "float32" else 8 * e)
+        if self.name == "log": return Fraction(2) ** (8 * e)
+        if self.name == "viterbi": return (1, self.logw(e))
+        return True
+    def obs(self, x, rtol=None, atol=None):
+        """nan is handed to the oracle as the EMPTY interval, which it rejects whatever the exact value is
+        (theorems C01_nan_rejected_real / _trop): verdict 1 with the concrete grammar and weights"""
+        if self.name != "bool" and float(x) != float(x):
+            if self.name == "viterbi": return ((2, Fraction(0)), (0, Fraction(0)))      # [+inf, -inf]
+            return (Fraction(1), Fraction(0))                                            # [1, 0]
+        return SR.obs(self, x, rtol, atol)
+
 CONFIGS = [SR("real", "float64"), SR("real", "float32"), SR("log", "float64"), SR("viterbi", "float64"), SR("bool", "bool")]
 
 def weights_wire(spec, sr):
